@@ -53,6 +53,24 @@ pub fn run(ctx: &Ctx) {
             }
         }
     });
+    // histories: every sequence of three signing operations over 3 keys x 2 digests, each sequence on a FRESH thread
+    // (per-thread or per-process state that survives from one signer to the next shows only in such sequences)
+    let hk: Vec<U256> = vec![ks[0].1, ks[2].1, ks[4].1]; let hd: Vec<[u8; 32]> = vec![ds[8].1, ds[1].1];
+    let ops: Vec<(usize, usize)> = (0..3).flat_map(|k| (0..2).map(move |d| (k, d))).collect(); let n_ops = ops.len() as u64;
+    ctx.sweep("signing-histories", "every sequence of 3 signing operations over 3 keys x 2 digests (216 histories), each on a fresh thread: every signature of the sequence is the reference signature of its own (key, digest)", n_ops * n_ops * n_ops, |i| {
+        let seq = [ops[(i / n_ops / n_ops) as usize], ops[(i / n_ops % n_ops) as usize], ops[(i % n_ops) as usize]];
+        let (hk2, hd2) = (hk.clone(), hd.clone());
+        let got = std::thread::spawn(move || guard(|| seq.iter().map(|(k, d)| { let s = PrivateKey::new(hk2[*k].to_be()).expect("valid key").sign(Digest(hd2[*d])); (U256::from_be(&s.r().to_be_bytes()), U256::from_be(&s.s().to_be_bytes()), s.y_parity().as_u8() == 1) }).collect::<Vec<_>>())).join().unwrap_or_else(|_| Err("thread died".into()));
+        let replay = json!({"sweep": "signing-histories", "index": i, "entry": "PrivateKey::sign x 3 on a fresh thread", "sequence": seq.iter().map(|(k, d)| format!("key {} digest {}", hk[*k].to_hex64(), explore::hex(&hd[*d]))).collect::<Vec<_>>()});
+        ctx.sample("signing-histories", || replay.clone());
+        let shape = if seq[0].0 != seq[1].0 && seq[0].0 == seq[2].0 { "history=A,B,A" } else if seq[0].0 == seq[1].0 && seq[1].0 == seq[2].0 { "history=A,A,A" } else { "history=other" };
+        match got {
+            Err(p) => { ctx.eval(format!("{shape}:panic")); ctx.panic_violation(format!("{P}:sign:{shape}:panic@{}", panic_site(&p)), format!("panics: {p}"), replay) }
+            Ok(sigs) => { ctx.eval(format!("{shape}:signed"));
+                for (step, ((k, d), got)) in seq.iter().zip(sigs.iter()).enumerate() { let (rr, rs, ro, _) = curve.sign_rfc6979(&hk[*k], &hd[*d]);
+                    if *got != (rr, rs, ro) { ctx.violation(format!("{P}:sign:{shape}:step-{}-depends-on-history", step + 1), format!("operation {} of the sequence returns {} instead of the signature of its own key and digest {}", step + 1, refmodel::eth::sig_text(&got.0, &got.1, got.2), refmodel::eth::sig_text(&rr, &rs, ro)), replay); break; } } }
+        }
+    });
     ctx.set_extra("digests_ge_n_where_signature_differs_from_rfc6979_of_reduced_digest(recorded,not required)", json!(ge_n_differs.load(Ordering::Relaxed)));
     ctx.guard_check("both parities observed", par0.load(Ordering::Relaxed) > 0 && par1.load(Ordering::Relaxed) > 0, format!("parity 0: {}, parity 1: {}", par0.load(Ordering::Relaxed), par1.load(Ordering::Relaxed)));
     ctx.guard_check("low-s flip exercised", flips.load(Ordering::Relaxed) > 0, format!("{} cases had a raw s above n/2", flips.load(Ordering::Relaxed)));
